@@ -43,7 +43,7 @@ logger = logging.getLogger("be.kuleuven.dtai.distance")
 
 dtw_cc = None
 try:
-    from . import dtw_cc
+    from .. import dtw_cc
 except ImportError:
     dtw_cc = None
 
